@@ -16,6 +16,7 @@ import NemoVerif.Lemmas.LifetimeVInv
 import NemoVerif.Lemmas.LifetimeCoreVM9
 import NemoVerif.Lemmas.LifetimeCoreVM9b
 import NemoVerif.Lemmas.LifetimeAct
+import NemoVerif.Lemmas.LifetimeActCoreVM
 namespace NemoVerif.C06
 open NemoVerif.Lifetime
 
@@ -1564,5 +1565,31 @@ theorem activation_count_strict_after_deactivate :
     liveRefs (run (actOps ++ [.abort 5 2 true])) [] 2 = 2 := by decide
 
 end T4
+
+/-! ### T4 on the shared interpreter model (CoreVM) -/
+section T4c
+variable (ν φ : String → Nat)
+
+/-- PARTIAL (the full statement would quantify over all steps of `CoreVM.runToCompletion`; instance creation / `_start_flow`
+    — `createInst` / `linkInst`, which would need the admissibility hypothesis `activated ≤ 1` on the event — and the steps that are
+    not refined at all are not in the relation): the bound "activation counter of a reference instance ≤ number of child-list
+    entries held by LIVE instances" holds for the abstraction along every sequence of refined CoreVM OPERATION steps — outermost
+    `CoreVM.abortFlow` / `finishFlow`, the `EndScope` / label / effect-free elements of `slideStep`, the `StopFlow` / `FinishFlow`
+    events and the processing of a `StartFlow` event that does not create an instance (`CoreVM.processInternalEvent`: the dropped
+    event of an ended sender and the re-activation of an activated reference instance, the branch seed C06-e reorders) —,
+    together with `WF`, `OrdInv` and `LinkInv`, which it needs. -/
+theorem corevm_activation_count_partial (hν : Function.Injective ν) (hφ : Function.Injective φ) (vm vm' : CoreVM.VM)
+    (hw : Refine.WF vm) (ho : OrdInv (Refine.absVM ν φ vm)) (hl : LinkInv (Refine.absVM ν φ vm)) (hb : ActCount (Refine.absVM ν φ vm))
+    (h : Refine.RefinedOpSteps ν φ vm vm') :
+    Refine.WF vm' ∧ OrdInv (Refine.absVM ν φ vm') ∧ LinkInv (Refine.absVM ν φ vm') ∧ ActCount (Refine.absVM ν φ vm') :=
+  Refine.corevm_activation_count_partial ν φ hν hφ vm vm' hw ho hl hb h
+
+-- non-vacuity: `vmEx` satisfies all hypotheses and a refined operation step leaves it
+example : OrdInv (Refine.absVM ν φ Refine.vmEx) := Refine.vmEx_ordInv ν φ
+example : LinkInv (Refine.absVM ν φ Refine.vmEx) := Refine.vmEx_linkInv ν φ
+example : ActCount (Refine.absVM ν φ Refine.vmEx) := Refine.vmEx_actCount ν φ
+example : ∃ vm', Refine.RefinedOpSteps ν φ Refine.vmEx vm' ∧ Refine.RefinedOpStep ν φ Refine.vmEx vm' := Refine.vmEx_opRefined ν φ
+
+end T4c
 
 end NemoVerif.C06
